@@ -51,12 +51,13 @@ VARIABLES
   stopHeld,  \* stopping criterion (or failure limit) was observed TRUE
   exh,       \* scheduler answered "nothing left"
   phase,     \* "loop" | "fin" | "done"
+  dead,      \* trials whose failure / external stop the back-end has reported to the loop
   flags,     \* set of raised flags
   \* ---- program (Tuner.run locals / attributes, generic backend state)
   pc, running, seen, batch, snap, done, sstop, lsr, tss, stopReached, exhausted, todoN, cur, todo, exc
 
 envV  == <<wst, em, ext>>
-monV  == <<dl, life, dec, ps, ck, rmv, nstart, nhand, stopHeld, exh, phase, flags>>
+monV  == <<dl, life, dec, ps, ck, rmv, nstart, nhand, stopHeld, exh, phase, dead, flags>>
 progV == <<pc, running, seen, batch, snap, done, sstop, lsr, tss, stopReached, exhausted, todoN, cur, todo, exc>>
 vars  == <<cf, envV, monV, progV>>
 
@@ -91,7 +92,7 @@ W_Emit(t) ==
   /\ cf.r3 => pc \notin {"stop", "pause"}                \* environment restriction excluding known finding F03
   /\ em' = [em EXCEPT ![t][CurRun(t)] = @ + 1]
   /\ ck' = [ck EXCEPT ![t] = "present"]      \* the script checkpoints at every report
-  /\ UNCHANGED <<wst, ext, dl, life, dec, ps, rmv, nstart, nhand, stopHeld, exh, phase, flags>>
+  /\ UNCHANGED <<wst, ext, dl, life, dec, ps, rmv, nstart, nhand, stopHeld, exh, phase, dead, flags>>
 
 W_Exit(t) ==
   /\ wst[t] = "busy" /\ (em[t][CurRun(t)] > 0 \/ cf.emptyexit)
@@ -112,9 +113,11 @@ W_ExtStop(t) ==
 ----------------------------------------------------------------------------
 (* MONITOR: one operator per observable call.                               *)
 
-\* backend.fetch_status_results returned n new results
-EvFetch(n) ==
+\* backend.fetch_status_results returned n new results; D = polled trials it reported as Failed, or as Stopped
+\* although the scheduler never stopped them
+EvFetch(n, D) ==
   /\ nhand' = nhand + n
+  /\ dead' = dead \cup D
   /\ UNCHANGED <<envV, dl, life, dec, ps, ck, rmv, nstart, stopHeld, exh, phase, flags>>
 
 \* scheduler.on_trial_result(trial t, report <<r, i>>) returned decision d
@@ -130,7 +133,7 @@ EvResult(t, r, i, d) ==
        \cup Flag(phase # "loop", "result_after_end")
   /\ dl'  = IF r = c /\ r >= 1 THEN [dl EXCEPT ![t][r] = i] ELSE dl
   /\ dec' = IF d \in {"STOP", "PAUSE"} THEN [dec EXCEPT ![t] = d] ELSE dec
-  /\ UNCHANGED <<envV, life, ps, ck, rmv, nstart, nhand, stopHeld, exh, phase>>
+  /\ UNCHANGED <<envV, life, ps, ck, rmv, nstart, nhand, stopHeld, exh, phase, dead>>
 
 \* backend.stop_trial(t) / backend.pause_trial(t): immediate kill
 EvStopTrial(t) ==
@@ -138,28 +141,28 @@ EvStopTrial(t) ==
                     \cup Flag(dec[t] # "STOP" /\ phase = "loop", "stop_without_decision")
   /\ wst'  = [wst EXCEPT ![t] = IF @ = "busy" THEN "killed" ELSE @]
   /\ life' = [life EXCEPT ![t] = "stopped"]
-  /\ UNCHANGED <<em, ext, dl, dec, ps, ck, rmv, nstart, nhand, stopHeld, exh, phase>>
+  /\ UNCHANGED <<em, ext, dl, dec, ps, ck, rmv, nstart, nhand, stopHeld, exh, phase, dead>>
 
 EvPauseTrial(t) ==
   /\ flags' = flags \cup Flag(life[t] # "running", "pause_not_running")
                     \cup Flag(dec[t] # "PAUSE", "pause_without_decision")
   /\ wst'  = [wst EXCEPT ![t] = IF @ = "busy" THEN "killed" ELSE @]
   /\ life' = [life EXCEPT ![t] = "paused"]
-  /\ UNCHANGED <<em, ext, dl, dec, ps, ck, rmv, nstart, nhand, stopHeld, exh, phase>>
+  /\ UNCHANGED <<em, ext, dl, dec, ps, ck, rmv, nstart, nhand, stopHeld, exh, phase, dead>>
 
 \* scheduler.on_trial_remove / on_trial_complete / on_trial_error
 EvRemove(t) ==
   /\ flags' = flags \cup Flag(ps[t] # "live", "protocol_remove")
                     \cup Flag(dec[t] = "none", "remove_without_decision")
   /\ ps' = [ps EXCEPT ![t] = "removed"]
-  /\ UNCHANGED <<envV, dl, life, dec, ck, rmv, nstart, nhand, stopHeld, exh, phase>>
+  /\ UNCHANGED <<envV, dl, life, dec, ck, rmv, nstart, nhand, stopHeld, exh, phase, dead>>
 
 EvComplete(t) ==
   /\ flags' = flags \cup Flag(ps[t] # "live", "protocol_complete")
                     \cup Flag(wst[t] # "ok", "complete_not_exited")
                     \cup Flag(CurRun(t) >= 1 /\ dl[t][CurRun(t)] < em[t][CurRun(t)], "complete_missing")  \* C02
   /\ ps' = [ps EXCEPT ![t] = "completed"]
-  /\ UNCHANGED <<envV, dl, life, dec, ck, rmv, nstart, nhand, stopHeld, exh, phase>>
+  /\ UNCHANGED <<envV, dl, life, dec, ck, rmv, nstart, nhand, stopHeld, exh, phase, dead>>
 
 EvError(t) ==
   /\ flags' = flags \cup Flag(ps[t] = "removed", "error_after_remove")       \* C01: second end-of-run notification
@@ -168,13 +171,13 @@ EvError(t) ==
   /\ ps' = [ps EXCEPT ![t] = "errored"]
   \* an observed crash is registered as failed whatever was decided before
   /\ life' = [life EXCEPT ![t] = IF wst[t] = "fail" THEN "failed" ELSE IF @ = "running" THEN "stopped" ELSE @]
-  /\ UNCHANGED <<envV, dl, dec, ck, rmv, nstart, nhand, stopHeld, exh, phase>>
+  /\ UNCHANGED <<envV, dl, dec, ck, rmv, nstart, nhand, stopHeld, exh, phase, dead>>
 
 \* TunerCallback.on_trial_complete: the loop registered t as completed
 EvCbComplete(t) ==
   /\ flags' = flags \cup Flag(wst[t] # "ok", "complete_not_exited")
   /\ life' = [life EXCEPT ![t] = IF @ = "running" THEN "completed" ELSE @]
-  /\ UNCHANGED <<envV, dl, dec, ps, ck, rmv, nstart, nhand, stopHeld, exh, phase>>
+  /\ UNCHANGED <<envV, dl, dec, ps, ck, rmv, nstart, nhand, stopHeld, exh, phase, dead>>
 
 \* backend.start_trial(config, checkpoint_trial_id = from) returned trial t
 EvStart(t, from) ==
@@ -190,12 +193,12 @@ EvStart(t, from) ==
   /\ life' = [life EXCEPT ![t] = "running"]
   /\ ck'  = [ck EXCEPT ![t] = IF from # NoTrial THEN "present" ELSE "none"]
   /\ nstart' = nstart + 1
-  /\ UNCHANGED <<ext, dec, ps, rmv, nhand, stopHeld, exh, phase>>
+  /\ UNCHANGED <<ext, dec, ps, rmv, nhand, stopHeld, exh, phase, dead>>
 
 EvAdd(t) ==
   /\ flags' = flags \cup Flag(ps[t] # "new" \/ life[t] # "running", "protocol_add")
   /\ ps' = [ps EXCEPT ![t] = "live"]
-  /\ UNCHANGED <<envV, dl, life, dec, ck, rmv, nstart, nhand, stopHeld, exh, phase>>
+  /\ UNCHANGED <<envV, dl, life, dec, ck, rmv, nstart, nhand, stopHeld, exh, phase, dead>>
 
 \* backend.resume_trial(t)
 EvResume(t) ==
@@ -213,7 +216,7 @@ EvResume(t) ==
   /\ dec' = [dec EXCEPT ![t] = "none"]
   /\ life' = [life EXCEPT ![t] = "running"]
   /\ ps'  = [ps EXCEPT ![t] = "live"]
-  /\ UNCHANGED <<ext, ck, rmv, nstart, nhand, stopHeld, exh, phase>>
+  /\ UNCHANGED <<ext, ck, rmv, nstart, nhand, stopHeld, exh, phase, dead>>
 
 \* backend.delete_checkpoint(t)
 EvDelete(t) ==
@@ -221,17 +224,17 @@ EvDelete(t) ==
                                  \/ phase # "loop"
                                  \/ (life[t] = "paused" /\ t \in rmv) ), "delete_live")   \* C20
   /\ ck' = [ck EXCEPT ![t] = IF @ = "none" THEN "none" ELSE "deleted"]
-  /\ UNCHANGED <<envV, dl, life, dec, ps, rmv, nstart, nhand, stopHeld, exh, phase>>
+  /\ UNCHANGED <<envV, dl, life, dec, ps, rmv, nstart, nhand, stopHeld, exh, phase, dead>>
 
 \* the scheduler declares S as never-resumable (trials_checkpoints_can_be_removed)
 EvRemovable(S) ==
   /\ rmv' = rmv \cup S
-  /\ UNCHANGED <<envV, dl, life, dec, ps, ck, nstart, nhand, stopHeld, exh, phase, flags>>
+  /\ UNCHANGED <<envV, dl, life, dec, ps, ck, nstart, nhand, stopHeld, exh, phase, dead, flags>>
 
 \* scheduler.suggest returned None
 EvExhausted ==
   /\ exh' = TRUE
-  /\ UNCHANGED <<envV, dl, life, dec, ps, ck, rmv, nstart, nhand, stopHeld, phase, flags>>
+  /\ UNCHANGED <<envV, dl, life, dec, ps, ck, rmv, nstart, nhand, stopHeld, phase, dead, flags>>
 
 \* counters the monitor derives from the events
 MonFailed   == NumLife({"failed"})
@@ -243,15 +246,18 @@ MonCritHolds ==
     [] OTHER                  -> FALSE
 \* Tuner._stop_condition() evaluated to b at the end of an iteration
 EvStopCrit(b) ==
-  /\ flags' = flags \cup Flag( \/ (cf.ckind # "script" /\ b # (MonCritHolds \/ MonFailed > cf.maxfail))
+  /\ flags' = flags \cup Flag( \/ (cf.ckind # "script" /\ ~cf.also /\ b # (MonCritHolds \/ MonFailed > cf.maxfail))
+                               \/ (cf.ckind # "script" /\ cf.also /\ (MonCritHolds \/ MonFailed > cf.maxfail) /\ ~b)   \* other criteria may trip too
                                \/ (cf.ckind = "script" /\ MonFailed > cf.maxfail /\ ~b), "criterion_mismatch")  \* C12
+                    \* C13: at the end of the iteration every failure the back-end reported has been passed on
+                    \cup Flag(\E t \in dead : ps[t] = "live", "failure_not_notified")
   /\ stopHeld' = (stopHeld \/ b)
-  /\ UNCHANGED <<envV, dl, life, dec, ps, ck, rmv, nstart, nhand, exh, phase>>
+  /\ UNCHANGED <<envV, dl, life, dec, ps, ck, rmv, nstart, nhand, exh, phase, dead>>
 
 \* on_loop_start: a new iteration begins
 EvIter ==
   /\ flags' = flags \cup Flag(stopHeld /\ ~(cf.wait /\ NumLife({"running"}) > 0), "loop_after_stop")   \* C12
-  /\ UNCHANGED <<envV, dl, life, dec, ps, ck, rmv, nstart, nhand, stopHeld, exh, phase>>
+  /\ UNCHANGED <<envV, dl, life, dec, ps, ck, rmv, nstart, nhand, stopHeld, exh, phase, dead>>
 
 \* backend.stop_all(): S = trials it stopped
 EvStopAll(S) ==
@@ -259,14 +265,16 @@ EvStopAll(S) ==
   \* from the tuner's point of view everything it believed running is now stopped
   /\ life' = [t \in Trials |-> IF life[t] = "running" THEN "stopped" ELSE life[t]]
   /\ phase' = "fin"
-  /\ UNCHANGED <<em, ext, dl, dec, ps, ck, rmv, nstart, nhand, stopHeld, exh, flags>>
+  /\ UNCHANGED <<em, ext, dl, dec, ps, ck, rmv, nstart, nhand, stopHeld, exh, dead, flags>>
 
 \* run() returned (kind = "normal") or raised (kind = "failure": named = trial in the message;
 \* kind = "nometrics": a trial completed without reporting; "other")
 \* cnt = <<started, completed, failed, finished>> read from TuningStatus
 EvEnd(kind, named, cnt) ==
   /\ flags' = flags
-       \cup Flag(Busy # {}, "left_running")                                              \* C12
+       \* (on the simulator a trial that has not reported yet only holds events in the queue and is documented to be
+       \*  invisible to stop_all: "left running" is judged where a trial occupies a real or scripted worker)
+       \cup Flag(Busy # {} /\ ~cf.sim, "left_running")                                  \* C12
        \cup Flag(kind \notin {"normal", "failure", "nometrics"}, "unexpected_exception")  \* C01 / C13
        \cup Flag(phase # "fin", "no_stop_all")
        \cup Flag(kind \in {"normal", "failure"} /\ (MonFailed > cf.maxfail) # (kind = "failure"), "failure_limit")   \* C13
@@ -278,7 +286,7 @@ EvEnd(kind, named, cnt) ==
        \cup Flag(kind \in {"normal", "failure"} /\ cnt # <<>> /\ cnt # <<nstart, NumLife({"completed"}), NumLife({"failed"}),
                                       NumLife({"completed", "stopped", "failed"})>>, "counters")   \* C12
   /\ phase' = "done"
-  /\ UNCHANGED <<envV, dl, life, dec, ps, ck, rmv, nstart, nhand, stopHeld, exh>>
+  /\ UNCHANGED <<envV, dl, life, dec, ps, ck, rmv, nstart, nhand, stopHeld, exh, dead>>
 
 ----------------------------------------------------------------------------
 (* The properties, as invariants over the monitor *)
@@ -301,12 +309,12 @@ CompleteMeansAll    == NoFlag("complete_missing") /\ NoFlag("complete_not_exited
 \* C12
 NoStartAfterStop    == NoFlag("start_after_stop") /\ NoFlag("loop_after_stop")
 EndsOnCriterion     == NoFlag("criterion_mismatch") /\ NoFlag("ended_early") /\ NoFlag("overshoot")
-NothingRunningAtReturn == NoFlag("left_running") /\ NoFlag("no_stop_all") /\ (phase = "done" => Busy = {})
+NothingRunningAtReturn == NoFlag("left_running") /\ NoFlag("no_stop_all") /\ ((phase = "done" /\ ~cf.sim) => Busy = {})
 CountersMatch       == NoFlag("counters")
 \* C13
 FailureContained    == NoFlag("error_not_failed") /\ NoFlag("resume_failed_run") /\ NoFlag("unexpected_exception")
 FailureLimit        == NoFlag("failure_limit") /\ NoFlag("failure_not_named")
-FailureNotifiedOnce == NoFlag("protocol_error")
+FailureNotifiedOnce == NoFlag("protocol_error") /\ NoFlag("failure_not_notified")
 \* C20
 DeleteOnlyWhenDead  == NoFlag("delete_live")
 CopySourceExists    == NoFlag("copy_missing")
@@ -322,7 +330,7 @@ InitCommon(c) ==
   /\ dl = [t \in Trials |-> <<>>] /\ life = [t \in Trials |-> "none"]
   /\ dec = [t \in Trials |-> "none"] /\ ps = [t \in Trials |-> "new"]
   /\ ck = [t \in Trials |-> "none"] /\ rmv = {} /\ nstart = 0 /\ nhand = 0
-  /\ stopHeld = FALSE /\ exh = FALSE /\ phase = "loop" /\ flags = {}
+  /\ stopHeld = FALSE /\ exh = FALSE /\ phase = "loop" /\ dead = {} /\ flags = {}
   /\ pc = "stopcond0" /\ running = {} /\ seen = [t \in Trials |-> 0]
   /\ batch = [t \in Trials |-> <<0, 0>>] /\ snap = [t \in Trials |-> "none"]
   /\ done = [t \in Trials |-> "none"] /\ sstop = {} /\ lsr = {}
@@ -368,7 +376,8 @@ T_Fetch ==
   /\ seen'  = [t \in Trials |-> IF t \in running /\ FetchNew(t) # <<0, 0>> THEN Tot(t) ELSE seen[t]]
   /\ snap'  = [t \in Trials |-> IF t \in running THEN BackendStatus(t) ELSE "none"]
   /\ done'  = [t \in Trials |-> "none"]
-  /\ EvFetch(SumSeq([i \in 1..NT |-> IF (i-1) \in running THEN FetchNew(i-1)[2] - FetchNew(i-1)[1] ELSE 0]))
+  /\ EvFetch(SumSeq([i \in 1..NT |-> IF (i-1) \in running THEN FetchNew(i-1)[2] - FetchNew(i-1)[1] ELSE 0]),
+             {t \in running : BackendStatus(t) = "Failed" \/ (BackendStatus(t) = "Stopped" /\ t \in ext)})
   /\ pc' = "results"
   /\ UNCHANGED <<cf, running, sstop, lsr, tss, stopReached, exhausted, todoN, cur, todo, exc>>
 
